@@ -1,8 +1,9 @@
 """Produce `-Zunpretty=mir` dumps of /repo crates from the current working tree (repository toolchain).
 
-The dump is regenerated whenever any tracked source of /repo changed: the cache key is a hash over all
-.rs/.toml/.mol files of the work tree; rustc is forced to re-run by passing `--cfg vmir_<key>` (changing the
-flags changes cargo's fingerprint, no file in /repo is touched).
+The dump of a package is regenerated whenever its MIR can have changed: the cache key (`pkg_key`) is a hash over the
+.rs/.toml/.mol files of the package itself, the keys of every workspace package it depends on (non-dev, transitively),
+Cargo.lock and the toolchain file; rustc is forced to re-run by passing `--cfg vmir_<key>` (changing the flags changes
+cargo's fingerprint, no file in /repo is touched). `tree_hash` (all sources of the work tree) is reported in evidence.
 """
 from __future__ import annotations
 import hashlib
@@ -38,6 +39,69 @@ def tree_hash():
     return _tree_hash
 
 
+_meta = None
+_pkg_keys = {}
+
+
+def _metadata():
+    global _meta
+    if _meta is None:
+        import json
+        env = dict(os.environ)
+        env["CARGO_NET_OFFLINE"] = "true"
+        p = subprocess.run(["cargo", "metadata", "--format-version", "1", "--offline", "--no-deps"], cwd=REPO, env=env, capture_output=True, text=True)
+        if p.returncode != 0:
+            raise RuntimeError("cargo metadata failed: " + p.stderr[-2000:])
+        pk = {}
+        for x in json.loads(p.stdout)["packages"]:
+            pk[x["name"]] = {"dir": os.path.dirname(x["manifest_path"]),
+                             "deps": sorted({d["name"] for d in x["dependencies"] if d.get("path") and d.get("kind") != "dev"})}
+        _meta = pk
+    return _meta
+
+
+def _own_files_hash(pdir, all_dirs):
+    h = hashlib.sha256()
+    skip = {"target", ".git"}
+    for root, dirs, files in os.walk(pdir):
+        dirs[:] = sorted(d for d in dirs if d not in skip and not d.startswith(".") and os.path.join(root, d) not in all_dirs)
+        for fn in sorted(files):
+            if fn.endswith((".rs", ".toml", ".mol")):
+                fp = os.path.join(root, fn)
+                try:
+                    data = open(fp, "rb").read()
+                except OSError:
+                    continue
+                h.update(os.path.relpath(fp, REPO).encode())
+                h.update(hashlib.sha256(data).digest())
+    return h.hexdigest()
+
+
+def pkg_key(pkg, _stack=()):
+    """cache key of one workspace package: its own sources, the keys of the workspace packages it depends on (non-dev), Cargo.lock and the toolchain file --
+    an edit re-dumps exactly the packages whose MIR can change"""
+    if pkg in _pkg_keys:
+        return _pkg_keys[pkg]
+    meta = _metadata()
+    if pkg not in meta:
+        return tree_hash()
+    if pkg in _stack:
+        return "cycle"
+    all_dirs = {m["dir"] for m in meta.values()}
+    h = hashlib.sha256()
+    h.update(_own_files_hash(meta[pkg]["dir"], all_dirs - {meta[pkg]["dir"]}).encode())
+    for d in meta[pkg]["deps"]:
+        h.update(d.encode())
+        h.update(pkg_key(d, _stack + (pkg,)).encode())
+    for extra in ("Cargo.lock", "rust-toolchain.toml", "rust-toolchain", "Cargo.toml"):
+        try:
+            h.update(hashlib.sha256(open(os.path.join(REPO, extra), "rb").read()).digest())
+        except OSError:
+            pass
+    _pkg_keys[pkg] = h.hexdigest()[:16]
+    return _pkg_keys[pkg]
+
+
 def file_hash(path):
     try:
         return hashlib.sha256(open(os.path.join(REPO, path), "rb").read()).hexdigest()[:16]
@@ -48,7 +112,7 @@ def file_hash(path):
 def dump(pkg, log=None):
     """returns path of the MIR dump of workspace package `pkg` for the current tree"""
     os.makedirs(os.path.join(WORK, "mir"), exist_ok=True)
-    key = tree_hash()
+    key = pkg_key(pkg)
     out = os.path.join(WORK, "mir", f"{pkg}.{key}.mir")
     if os.path.exists(out) and os.path.getsize(out) > 1000:
         return out
